@@ -109,6 +109,7 @@ def gen(rng, knobs):
                              T0 - rng.choice([10, 10, 20, 300]), tags,
                              eid=hx(rng, first=rng.choice([0, 0xff, None, None]))))
     probes = []
+    far_events = []
     for _ in range(rng.randint(5, 9)):
         a = rng.choice(anchors)
         shape = rng.choice(["kinds", "authors", "authors+kinds", "tag", "ids", "window", "kinds+since", "ptag", "ptag+tag*",
@@ -136,9 +137,22 @@ def gen(rng, knobs):
             f["since"] = a["created_at"] - rng.choice([0, 1, 5, 100])
         if "until" in shape:
             f["until"] = a["created_at"] + rng.choice([0, 1, 5, 100])
+        if rng.random() < 0.12:
+            # a bound far from the data and from the wall clock (hours / years ahead of now, decades back): it
+            # restricts nothing that is stored - and an event dated beyond it still does not match
+            far = T0 + rng.choice([3700, 7200, 10 ** 5, 10 ** 8])
+            f["until"] = far
+            if rng.random() < 0.3:
+                f["since"] = rng.choice([1, 10 ** 6, T0 - 10 ** 8])
+            if rng.random() < 0.3:
+                f = {k: f[k] for k in ("since", "until") if k in f}        # the bare window
+            far_events.append(craft(rng, a["pubkey"], a["kind"], far + rng.choice([1, 5, 1000]), [list(t) for t in a["tags"]]))
         probes.append(f)
     steps = []
     added = []
+    for e in far_events:
+        steps.append(["add", e, "beyond-far-until"])
+        added.append(e)
     for _ in range(rng.randint(6, 20)):
         c = rng.random()
         if c < 0.7 or not added:
